@@ -1267,8 +1267,10 @@ class KullbackLeiblerConvexConj(Functional):
                 xlogy = scipy.special.xlogy(self.prior, 1 - x)
                 res = -self.domain.element(xlogy).inner(self.domain.one())
 
-        if not np.isfinite(res):
+        if not np.isfinite(res) or np.any(np.greater(x, 1)):
             # In this case, some element was larger than or equal to one
+            # (where the prior is zero, `xlogy` is zero for any `x`, hence
+            # entries larger than one need to be checked for explicitly)
             return np.inf
         else:
             return res
